@@ -35,3 +35,23 @@ Qed.
 
 Theorem check_exit_without_option ff c input s sh e : run_check ff c input = R_done s sh e -> rc_exit c = None -> e = 0.
 Proof. intros H Hn. destruct (check_done_shape _ _ _ _ _ _ H) as (-> & _). rewrite Hn. reflexivity. Qed.
+
+(* the exit status of a whole `check` run, the abort at the layer-7 site (finding F6) aside; an input shorter than one RDH0 and an
+   unrecognised first RDH end the process with status 1 (fastpasta/src/lib.rs init_processing) *)
+Definition run_exit (r : run_result) : option N :=
+  match r with R_too_short | R_unrecognised => Some 1 | R_done _ _ e => Some e | R_panic _ => None end.
+
+Theorem unreadable_is_nonzero ff c input : Nat.ltb (length input) 8 = true \/ recognised input = false ->
+  run_exit (run_check ff c input) = Some 1.
+Proof.
+  intros [H|H]; unfold run_check; [rewrite H; reflexivity|]. destruct (Nat.ltb _ _); [reflexivity|]. rewrite H. reflexivity.
+Qed.
+
+Theorem exit_zero_means_processed ff c input : run_exit (run_check ff c input) = Some 0 ->
+  Nat.ltb (length input) 8 = false /\ recognised input = true /\ exists s sh, run_check ff c input = R_done s sh 0.
+Proof.
+  destruct (run_check ff c input) as [| |p|s sh e] eqn:E; cbn [run_exit]; try discriminate. intros H. injection H as ->.
+  assert (G : Nat.ltb (length input) 8 = false /\ recognised input = true).
+  { unfold run_check in E. destruct (Nat.ltb _ _); [discriminate|]. destruct (recognised input); [split; reflexivity|discriminate]. }
+  destruct G as [G1 G2]. split; [exact G1|]. split; [exact G2|]. exists s, sh. reflexivity.
+Qed.
